@@ -37,6 +37,9 @@ func c14Amount(r *vRand) int64 {
 	case 3:
 		return int64(r.Range(250000, 400000)) // around the shares max clamp (256000)
 	case 4:
+		if r.Bool() {
+			return (int64(2*r.Range(0, 7)+1) << 29) // k.5 GiB
+		}
 		return int64(1) << uint(r.Range(20, 40)) // huge
 	default:
 		return int64(r.Range(10, 64000))
@@ -54,6 +57,13 @@ func c14List(r *vRand, cpu, mem int64, cpuKeyAlways bool) corev1.ResourceList {
 	}
 	if mem >= 0 {
 		l[apiext.BatchMemory] = *resource.NewQuantity(mem, resource.BinarySI)
+		if r.Chance(1, 4) {
+			// the same number of bytes, but parsed from text: apimachinery may keep it in arbitrary-precision form
+			l[apiext.BatchMemory] = resource.MustParse(fmt.Sprintf("%d", mem))
+			if mem > 0 && mem%(1<<29) == 0 && mem%(1<<30) != 0 {
+				l[apiext.BatchMemory] = resource.MustParse(fmt.Sprintf("%d.5Gi", mem>>30))
+			}
+		}
 	}
 	return l
 }
